@@ -21,7 +21,7 @@ MANIFEST = {
 }
 
 THEOREMS = {
-    "C18": ["Backtrace.C18_ring_refines", "Backtrace.C18_flush_emits_lastN", "Backtrace.C18_cycle_after_flush",
+    "C18": ["Backtrace.C18_ring_refines", "Backtrace.C18_flush_emits_lastN", "Backtrace.C18_replays_form_a_subsequence", "Backtrace.C18_cycle_after_flush",
             "Backtrace.C18_cycle_after_resize", "Backtrace.C18_lastN_is_most_recent", "Backtrace.C18_trigger_iff",
             "Backtrace.C18_stored_iff", "Backtrace.C18_written_iff", "Backtrace.C18_backend_refines",
             "Backtrace.C18_backtrace_statement_not_written", "Backtrace.C18_replay_follows_trigger",
